@@ -327,17 +327,13 @@ public:
 
   Variant& operator=(const HashMap<String, Variant>& other)
   {
-    if(data->type != mapType || data->ref > 1)
-    {
-      clear();
-      data = (Data*)new char[sizeof(Data) + sizeof(HashMap<String, Variant>)];
-      HashMap<String, Variant>* map = (HashMap<String, Variant>*)(data + 1);
-      new (map) HashMap<String, Variant>(other);
-      data->type = mapType;
-      data->ref = 1;
-    }
-    else
-      *(HashMap<String, Variant>*)(data + 1) = other;
+    // other might live inside the value held by this (e.g. a container nested in one of its elements): copy it first
+    Data* newData = (Data*)new char[sizeof(Data) + sizeof(HashMap<String, Variant>)];
+    new ((HashMap<String, Variant>*)(newData + 1)) HashMap<String, Variant>(other);
+    newData->type = mapType;
+    newData->ref = 1;
+    clear();
+    data = newData;
     return *this;
   }
 
@@ -367,17 +363,13 @@ public:
 
   Variant& operator=(const List<Variant>& other)
   {
-    if(data->type != listType || data->ref > 1)
-    {
-      clear();
-      data = (Data*)new char[sizeof(Data) + sizeof(List<Variant>)];
-      List< Variant>* list = (List<Variant>*)(data + 1);
-      new (list) List<Variant>(other);
-      data->type = listType;
-      data->ref = 1;
-    }
-    else
-      *(List<Variant>*)(data + 1) = other;
+    // other might live inside the value held by this (e.g. a container nested in one of its elements): copy it first
+    Data* newData = (Data*)new char[sizeof(Data) + sizeof(List<Variant>)];
+    new ((List<Variant>*)(newData + 1)) List<Variant>(other);
+    newData->type = listType;
+    newData->ref = 1;
+    clear();
+    data = newData;
     return *this;
   }
 
@@ -407,17 +399,13 @@ public:
 
   Variant& operator=(const Array<Variant>& other)
   {
-    if(data->type != arrayType || data->ref > 1)
-    {
-      clear();
-      data = (Data*)new char[sizeof(Data) + sizeof(Array<Variant>)];
-      Array<Variant>* array = (Array<Variant>*)(data + 1);
-      new (array) Array<Variant>(other);
-      data->type = arrayType;
-      data->ref = 1;
-    }
-    else
-      *(Array<Variant>*)(data + 1) = other;
+    // other might live inside the value held by this (e.g. a container nested in one of its elements): copy it first
+    Data* newData = (Data*)new char[sizeof(Data) + sizeof(Array<Variant>)];
+    new ((Array<Variant>*)(newData + 1)) Array<Variant>(other);
+    newData->type = arrayType;
+    newData->ref = 1;
+    clear();
+    data = newData;
     return *this;
   }
 
@@ -457,12 +445,13 @@ public:
   {
     if(data->type != stringType || data->ref > 1)
     {
+      // other might live inside the value held by this (a string nested in one of its elements): copy it first
+      Data* newData = (Data*)new char[sizeof(Data) + sizeof(String)];
+      new ((String*)(newData + 1)) String(other);
+      newData->type = stringType;
+      newData->ref = 1;
       clear();
-      data = (Data*)new char[sizeof(Data) + sizeof(String)];
-      String* string = (String*)(data + 1);
-      new (string) String(other);
-      data->type = stringType;
-      data->ref = 1;
+      data = newData;
     }
     else
       *(String*)(data + 1) = other;
